@@ -58,7 +58,18 @@ def main():
         print("unknown property %s; known: %s" % (a.prop, " ".join(sorted(props))))
         sys.exit(2)
     seed = int(os.environ.get("VERIF_SEED", "20260926"))
-    rc = engine.run_property(props[a.prop](), a.tier, seed, replay=a.replay)
+    try:
+        rc = engine.run_property(props[a.prop](), a.tier, seed, replay=a.replay)
+    except Exception:
+        # the check itself could not be completed on this tree (e.g. output of a changed implementation that the
+        # machinery cannot interpret): the property is no longer shown to hold
+        import traceback
+        tb = traceback.format_exc()
+        path = common.write_replay(a.prop, {"kind": "correspondence", "what": "the check could not be completed: internal error of the checking machinery on this tree",
+                                            "traceback": tb.splitlines()[-12:], "tier": a.tier, "seed": seed})
+        print(tb)
+        print("VIOLATION property=%s replay=%s no-failing-input-found" % (a.prop, path))
+        rc = 1
     sys.exit(rc)
 
 
